@@ -21,7 +21,7 @@ T = {
  "C06": ("Bb.C06.raw_roundtrip / raw_value_of_storage / zero_raw / default_raw / default_too_large / storage_least: new_with_raw_value(r).raw_value() = r for native and arbitrary bases, ZERO is 0, DEFAULT_RAW_VALUE is the declared value (all bits), storage is the least native width. Copy/size/align are compiler-checked in the correspondence crates, not modelled.", "§6 C06"),
  "C07": ("Bb.C07: new_with_raw_value(x) returns the variant whose discriminant is x, Err(x) when there is none, never panics for accepted non-exhaustive enums; exhaustive enums are total by pigeonhole over the accepted declaration; raw_value() is the discriminant; the two conversions are mutually inverse.", "§6 C07"),
  "C08": ("Bb.C08.custom_get / custom_with, parametric in the user type's two conversion functions: the getter is T::new_with_raw_value(presented field bits) (Option<E>: the Result passed through), the setter writes value.raw_value() into exactly the field's bits; 1-bit, arbitrary and native widths, arrays and lists through the general accessor theorems.", "§6 C08"),
- "C09": ("Bb.C09: parseField accepts a well-formed field declaration iff the rule set RuleValid holds (ranges lo ≤ hi, type width = Σ range lengths, bool exactly one bit, arrays ≥ 2 elements with stride ≥ width / mandatory for lists, every addressed bit below the exposed base width), and acceptance implies FieldOk, the premise of all accessor theorems.", "§6 C09"),
+ "C09": ("Bb.C09.field_accept_iff / accept_iff_rules / accepted_fieldOk: parseField accepts a field declared with a well-formed bit/bits attribute (rendered to tokens and read back by the ArgumentParser model) iff the rule set RuleValid holds (ranges lo ≤ hi, type width = Σ range lengths, bool exactly one bit, arrays ≥ 2 elements with stride ≥ width / mandatory for lists, every addressed bit below the exposed base width), and acceptance implies FieldOk, the premise of all accessor theorems.", "§6 C09"),
  "C10": ("Bb.C10: bitenumCheck accepts iff EnumValid (size 1..=64, explicit literal discriminants < 2^N, exhaustive=true iff all 2^N present, false/omitted iff fewer, more than 2^N or cfg-gated variants only under conditional).", "§6 C10"),
  "C11": ("Bb.C11.inv_new / inv_step / inv_reachable / raw_value_total / rewrap_id / getter_reads_below: the storage stays below 2^N through every history of accepted writes (all accepted fields, lists with repeated bits included), raw_value() never panics, and new_with_raw_value(x.raw_value()) has the same storage as x.", "§6 C11"),
  "C12": ("Bb.C12.history / history_runs / disjoint_commute / overlap_alias: every legal history of with_/set_ calls runs under both profiles and each bit of the final register is the bit of the last write covering it, else the initial bit (induction over the operation list, unbounded length).", "§6 C12"),
